@@ -143,6 +143,19 @@ def deepcopy_(x):
     return x
 
 
+def same_cells(a, b):
+    if isinstance(a, list) and isinstance(b, list):
+        return len(a) == len(b) and all(same_cells(x, y) for x, y in zip(a, b))
+    return a is b
+
+
+def _deepcopy_tracked(sk, n, x, *memo):
+    r = deepcopy_(x)
+    if isinstance(x, list):
+        sk.copies.setdefault(id(x), (x, []))[1].append(r)
+    return r
+
+
 def shape_ok(pt, dim):
     return isinstance(pt, (list, tuple)) and len(pt) == dim and all(isinstance(c, Tok) and c.kind == 'DEF' for c in pt)
 
@@ -160,6 +173,8 @@ class SK(object):
         self.steps = 0
         self.decisions = None       # None: undecidable float comparisons are unsupported; list: replayed / extended fork decisions
         self.trace = []
+        self.copies = {}            # id(source list) -> (source, [deep copies made of it]); working-copy discipline (SS1)
+        self.stale = []             # (node, index): element of a copied source read after the working copy's element changed
 
     # ------------------------------------------------------------------ name resolution
     def lookup_global(self, mod, name):
@@ -357,6 +372,11 @@ class SK(object):
         i = self.ev(e.slice, env)
         if isinstance(i, Tok):
             raise Unsupported('abstract float used as index')
+        if self.copies and id(b) in self.copies and isinstance(i, int):
+            src, works = self.copies[id(b)]
+            for w in works:
+                if -len(src) <= i < len(src) and len(w) == len(src) and not same_cells(src[i], w[i]):
+                    self.stale.append((e, i))
         try:
             return b[i]
         except (IndexError, KeyError):
@@ -659,7 +679,7 @@ BUILTINS = {
     'zip': Py(lambda sk, n, *a: list(zip(*[sk.iterate(x, n) for x in a])), 'zip'),
     'enumerate': Py(lambda sk, n, x, *s: list(enumerate(sk.iterate(x, n), *s)), 'enumerate'),
     'isinstance': Py(_isinst, 'isinstance'), 'list': Py(lambda sk, n, *a: list(*a), 'list'), 'tuple': Py(lambda sk, n, *a: tuple(*a), 'tuple'),
-    'dict': Py(lambda sk, n, *a, **k: dict(*a, **k), 'dict'), 'deepcopy': Py(lambda sk, n, x, *m: deepcopy_(x), 'deepcopy'),
+    'dict': Py(lambda sk, n, *a, **k: dict(*a, **k), 'dict'), 'deepcopy': Py(_deepcopy_tracked, 'deepcopy'),
     'sum': Py(_sum, 'sum'), 'reversed': Py(lambda sk, n, x: list(reversed(x)), 'reversed'), 'sorted': Py(lambda sk, n, x: sorted(x), 'sorted'),
     'set': Py(lambda sk, n, *a: set(*a), 'set'), 'str': Py(lambda sk, n, *a: '', 'str'), 'print': Py(lambda sk, n, *a, **k: None, 'print'),
     'all': Py(lambda sk, n, x: all(x), 'all'), 'any': Py(lambda sk, n, x: any(x), 'any'), 'bool': Py(lambda sk, n, x: bool(x), 'bool'),
